@@ -212,6 +212,23 @@ func checkC12(c *Ctx) {
 				impl := safeStr(func() string { return showElem(objAt().FindPath(nil, pp...)) })
 				addQ(doc, fmt.Sprintf("find %s %d %s path %s", st, p.K, ps, hexList(pp)), impl, fmt.Sprintf("FindPath %q at %s", pp, ps))
 			}
+			// Object.Parse: names and types in order, against the modelled loop over NextElementBytes
+			{
+				impl := safeStr(func() string {
+					els, err := objAt().Parse(nil)
+					if err != nil {
+						return "ERR"
+					}
+					var b strings.Builder
+					b.WriteString("els ")
+					for _, e := range els.Elements {
+						fmt.Fprintf(&b, "k%x;%d,", e.Name, int(e.Type))
+					}
+					b.WriteByte('.')
+					return b.String()
+				})
+				addQ(doc, fmt.Sprintf("find %s %d %s parse -", st, p.K, ps), impl, fmt.Sprintf("Parse at %s", ps))
+			}
 			// ForEach with filters (keys must be unique for the property)
 			if !dup {
 				uniq := p.Keys
